@@ -57,8 +57,8 @@ theorem writeField_unsigned_array (arch : Endian) (pf : PField) (w : Nat) (xs : 
     writeField arch pf (.sl (.u (8 * w))) (.us (some xs)) = .ok (xs.map (arch.enc w)).flatten := by
   unfold writeField
   simp only [harr, Bool.not_true, Bool.false_eq_true, ↓reduceIte, hns, List.length_map]
-  have hmax : min (xs.length % 256) pf.length = xs.length := by
-    rw [hlen, Nat.mod_eq_of_lt hl256]; exact Nat.min_self _
+  have hmax : min xs.length pf.length = xs.length := by
+    rw [hlen]; exact Nat.min_self _
   rw [hmax]
   have htk : (xs.map Val.u).take xs.length = xs.map Val.u := List.take_of_length_le (by simp)
   rw [htk]
